@@ -41,6 +41,12 @@ def check(chk):
     from .c01 import _Relabel as _RL
     _c02._concat_align(_RL(chk, "MIRROR.state.concat", "REINSERT.concat"))
     pm = chk.pm
+    # a model fitted on data with entirely missing samples is the model of the data without them: sample counts that enter
+    # a formula are counts of the samples that were decomposed (the stored 2-D matrix), not of the sanitizer's bookkeeping
+    # of all labels (rule body shared with C11.NORM.pseudo)
+    from . import c11 as _c11
+    _rot = pm.cls("xeofs.single.eof_rotator.EOFRotator")
+    _c11._pseudo_norm(_RL(chk, "NORM.pseudo", "REINSERT.count"), _rot.methods["_fit_algorithm"], _rot.qualname)
     san = pm.cls("xeofs.preprocessing.sanitizer.Sanitizer")
     tr = san.methods.get("transform")
     chk.require(tr is not None, "Sanitizer.transform vanished")
